@@ -26,12 +26,19 @@ pub enum Item { Sync, Ready, Yields(u8), Sleeps(u8), Fails }
 pub enum Exec { FuturesFallible, Futures, Fallibles, Plain }
 
 #[derive(Clone, Debug)]
-pub struct Cfg { pub kind: &'static str, pub m: usize, pub exec: Exec, pub limit: u32, pub rt: Rt, pub items: Vec<Item>, pub listeners: usize, pub pause_before_close: u8, pub drop_one_stream_first: bool }
+pub struct Cfg { pub kind: &'static str, pub m: usize, pub exec: Exec, pub limit: u32, pub rt: Rt, pub items: Vec<Item>, pub listeners: usize, pub pause_before_close: u8, pub drop_one_stream_first: bool,
+    /// a futures timeout that never fires (10 s against items of a few ms) instead of `Duration::ZERO`: the executors' timeout branches
+    pub with_timeout: bool,
+    /// `cancel_all_streams()` is called right before the close (cancelled streams still drain what is buffered; the close must still wait for them)
+    pub cancel_before_close: bool,
+    /// a second close() is issued concurrently with the first; each must satisfy the postcondition at its own return
+    pub second_close: bool }
 impl Cfg {
     pub fn json(&self) -> J {
         J::obj().with("channel", J::s(self.kind)).with("MAX_STREAMS", J::i(self.m as i64)).with("executor", J::s(format!("{:?}", self.exec))).with("concurrency_limit", J::i(self.limit as i64)).with("runtime", J::s(self.rt.describe()))
             .with("events", J::i(self.items.len() as i64)).with("per_event_behaviour", J::s(format!("{:?}", &self.items[..self.items.len().min(24)]))).with("listeners", J::i(self.listeners as i64))
             .with("yields_between_last_send_and_close", J::i(self.pause_before_close as i64)).with("a_listener_dropped_before_the_close", J::Bool(self.drop_one_stream_first))
+            .with("futures_timeout", J::s(if self.with_timeout { "10 s (never fires)" } else { "none" })).with("cancel_all_streams_before_close", J::Bool(self.cancel_before_close)).with("second_concurrent_close", J::Bool(self.second_close))
     }
 }
 
@@ -73,10 +80,11 @@ where C: FullDuplexUniChannel<ItemType = Tok, DerivedItemType = D> + Send + Sync
     let cc = close_calls.clone();
     let on_close = move |_s| { let cc = cc.clone(); async move { cc.fetch_add(1, SeqCst); } };
     let uni = Uni::<Tok, C, I, D>::new("rmv-c06");
+    let fto = if cfg.with_timeout { Duration::from_secs(10) } else { Duration::ZERO };
     let (l1, it1) = (ledger.clone(), items.clone());
     let uni = match cfg.exec {
-        Exec::FuturesFallible => uni.spawn_executors(cfg.limit, Duration::ZERO, move |s| { let (l, it) = (l1.clone(), it1.clone()); s.map(move |d: D| { let e = d.ev(); process(l.clone(), slot(0, e, ne), it[e as usize], paused) }) }, |_e| async {}, on_close),
-        Exec::Futures => uni.spawn_futures_executors(cfg.limit, Duration::ZERO, move |s| { let (l, it) = (l1.clone(), it1.clone()); s.map(move |d: D| { let e = d.ev(); let f = process(l.clone(), slot(0, e, ne), it[e as usize], paused); async move { f.await.unwrap_or(u32::MAX) } }) }, on_close),
+        Exec::FuturesFallible => uni.spawn_executors(cfg.limit, fto, move |s| { let (l, it) = (l1.clone(), it1.clone()); s.map(move |d: D| { let e = d.ev(); process(l.clone(), slot(0, e, ne), it[e as usize], paused) }) }, |_e| async {}, on_close),
+        Exec::Futures => uni.spawn_futures_executors(cfg.limit, fto, move |s| { let (l, it) = (l1.clone(), it1.clone()); s.map(move |d: D| { let e = d.ev(); let f = process(l.clone(), slot(0, e, ne), it[e as usize], paused); async move { f.await.unwrap_or(u32::MAX) } }) }, on_close),
         Exec::Fallibles => uni.spawn_fallibles_executors(cfg.limit, move |s| { let (l, it) = (l1.clone(), it1.clone()); s.map(move |d: D| -> Result<u32, Box<dyn std::error::Error + Send + Sync>> { let e = d.ev(); process_sync(&l, slot(0, e, ne)); if it[e as usize] == Item::Fails { Err(Box::new(ItemError(e as u32))) } else { Ok(e as u32) } }) }, |_e| {}, on_close),
         Exec::Plain => uni.spawn_non_futures_non_fallibles_executors(cfg.limit, move |s| { let l = l1.clone(); s.map(move |d: D| { let e = d.ev(); process_sync(&l, slot(0, e, ne)); e as u32 }) }, on_close),
     };
@@ -90,11 +98,19 @@ where C: FullDuplexUniChannel<ItemType = Tok, DerivedItemType = D> + Send + Sync
         if e % 3 == 2 { tokio::task::yield_now().await }
     }
     for _ in 0..cfg.pause_before_close { tokio::task::yield_now().await }
+    if cfg.cancel_before_close { uni.channel.cancel_all_streams() }
+    // (optionally) a second, concurrent close(): it takes its own snapshot right after its own await
+    let second = if cfg.second_close {
+        let (u2, l2, ids2) = (uni.clone(), ledger.clone(), accepted_ids.clone());
+        Some(tokio::spawn(async move { let a = u2.close(Duration::ZERO).await; let st = l2.state.lock().unwrap().clone(); let unf: Vec<(usize, u32, u8)> = ids2.iter().map(|e| *e as usize).filter(|e| st[*e] != 2).map(|e| (0usize, e as u32, st[e])).collect(); (a, unf, u2.channel.running_streams_count()) }))
+    } else { None };
     let close_answer = uni.close(Duration::ZERO).await;
     // ---- the snapshot, taken by the closing task right after the await
     let st = ledger.state.lock().unwrap().clone();
-    let unfinished: Vec<(usize, u32, u8)> = accepted_ids.iter().map(|e| *e as usize).filter(|e| st[*e] != 2).map(|e| (0usize, e as u32, st[e])).collect();
-    Snapshot { close_answer, unfinished, running: uni.channel.running_streams_count(), open: uni.channel.is_channel_open(), accepted, close_calls_at_return: close_calls.load(SeqCst), in_flight: ledger.in_flight.load(SeqCst) }
+    let mut unfinished: Vec<(usize, u32, u8)> = accepted_ids.iter().map(|e| *e as usize).filter(|e| st[*e] != 2).map(|e| (0usize, e as u32, st[e])).collect();
+    let mut running = uni.channel.running_streams_count();
+    if let Some(h) = second { if let Ok((_a, unf, r)) = h.await { unfinished.extend(unf); running = running.max(r) } }
+    Snapshot { close_answer, unfinished, running, open: uni.channel.is_channel_open(), accepted, close_calls_at_return: close_calls.load(SeqCst), in_flight: ledger.in_flight.load(SeqCst) }
 }
 
 async fn multi_case<C, D>(cfg: Cfg, ledger: Arc<Ledger>) -> Snapshot
@@ -108,6 +124,7 @@ where C: FullDuplexMultiChannel<ItemType = Tok, DerivedItemType = D> + Send + Sy
     static SEQ: std::sync::atomic::AtomicU64 = std::sync::atomic::AtomicU64::new(0);
     let name = format!("rmv-c06-{}-{}", std::process::id(), SEQ.fetch_add(1, SeqCst));
     let multi = Arc::new(Multi::<Tok, C, I, D>::new(name.clone()));
+    let fto = if cfg.with_timeout { Duration::from_secs(10) } else { Duration::ZERO };
     let _ = std::fs::remove_file(format!("/tmp/{name}.mmap"));
     // (optionally) a listener that goes away, unconsumed and uncancelled, before anything happens
     if cfg.drop_one_stream_first { let (s, _id) = multi.channel.create_stream_for_new_events(); drop(s) }
@@ -116,7 +133,7 @@ where C: FullDuplexMultiChannel<ItemType = Tok, DerivedItemType = D> + Send + Sy
         let on_close = move |_s| { let cc = cc.clone(); async move { cc.fetch_add(1, SeqCst); } };
         let (lg, it) = (ledger.clone(), items.clone());
         let r = match cfg.exec {
-            Exec::FuturesFallible | Exec::Futures | Exec::Fallibles => multi.spawn_executor(cfg.limit, Duration::ZERO, format!("listener {l}"), move |s| s.map(move |d: D| { let e = d.ev(); process(lg.clone(), slot(l, e, ne), it[e as usize], paused) }), |_e| async {}, on_close).await,
+            Exec::FuturesFallible | Exec::Futures | Exec::Fallibles => multi.spawn_executor(cfg.limit, fto, format!("listener {l}"), move |s| s.map(move |d: D| { let e = d.ev(); process(lg.clone(), slot(l, e, ne), it[e as usize], paused) }), |_e| async {}, on_close).await,
             Exec::Plain => multi.spawn_non_futures_non_fallible_executor(cfg.limit, format!("listener {l}"), move |s| s.map(move |d: D| { let e = d.ev(); process_sync(&lg, slot(l, e, ne)); e as u32 }), on_close).await,
         };
         r.expect("spawn executor");
@@ -131,11 +148,20 @@ where C: FullDuplexMultiChannel<ItemType = Tok, DerivedItemType = D> + Send + Sy
         if e % 3 == 2 { tokio::task::yield_now().await }
     }
     for _ in 0..cfg.pause_before_close { tokio::task::yield_now().await }
+    if cfg.cancel_before_close { multi.channel.cancel_all_streams() }
+    let nl = cfg.listeners;
+    let second = if cfg.second_close {
+        let (m2, l2, ids2) = (multi.clone(), ledger.clone(), accepted_ids.clone());
+        Some(tokio::spawn(async move { let a = m2.close(Duration::ZERO).await; let st = l2.state.lock().unwrap().clone(); let mut unf = Vec::new();
+            for l in 0..nl { for e in ids2.iter().map(|e| *e as usize) { let s = st[slot(l, e as u64, ne) as usize]; if s != 2 { unf.push((l, e as u32, s)) } } } (a, unf, m2.channel.running_streams_count()) }))
+    } else { None };
     let close_answer = multi.close(Duration::ZERO).await;
     let st = ledger.state.lock().unwrap().clone();
     let mut unfinished = Vec::new();
     for l in 0..cfg.listeners { for e in accepted_ids.iter().map(|e| *e as usize) { let s = st[slot(l, e as u64, ne) as usize]; if s != 2 { unfinished.push((l, e as u32, s)) } } }
-    Snapshot { close_answer, unfinished, running: multi.channel.running_streams_count(), open: multi.channel.is_channel_open(), accepted, close_calls_at_return: close_calls.load(SeqCst), in_flight: ledger.in_flight.load(SeqCst) }
+    let mut running = multi.channel.running_streams_count();
+    if let Some(h) = second { if let Ok((_a, unf, r)) = h.await { unfinished.extend(unf); running = running.max(r) } }
+    Snapshot { close_answer, unfinished, running, open: multi.channel.is_channel_open(), accepted, close_calls_at_return: close_calls.load(SeqCst), in_flight: ledger.in_flight.load(SeqCst) }
 }
 
 pub const UNI_KINDS: [&str; 5] = ["uni.movable.atomic", "uni.movable.full_sync", "uni.movable.crossbeam", "uni.zero_copy.atomic", "uni.zero_copy.full_sync"];
@@ -175,7 +201,8 @@ pub fn draw_cfg(rng: &mut Rng, only: Option<&str>) -> Cfg {
     let n_events = rng.below(max_events as u64 + 1) as usize;
     let futures = matches!(exec, Exec::FuturesFallible | Exec::Futures);
     let items: Vec<Item> = (0..n_events).map(|_| if !futures { if exec == Exec::Fallibles && rng.chance(1, 5) { Item::Fails } else { Item::Sync } } else { match rng.below(10) { 0..=2 => Item::Ready, 3..=5 => Item::Yields(1 + rng.below(3) as u8), 6..=8 => Item::Sleeps(1 + rng.below(5) as u8), _ => if exec == Exec::FuturesFallible { Item::Fails } else { Item::Ready } } }).collect();
-    Cfg { kind, m: 1 + rng.below(2) as usize, exec, limit: 1 + rng.below(4) as u32, rt, items, listeners: if multi { 1 + rng.below(3) as usize } else { 1 }, pause_before_close: rng.below(4) as u8, drop_one_stream_first: multi && rng.chance(1, 4) }
+    Cfg { kind, m: 1 + rng.below(2) as usize, exec, limit: 1 + rng.below(4) as u32, rt, items, listeners: if multi { 1 + rng.below(3) as usize } else { 1 }, pause_before_close: rng.below(4) as u8, drop_one_stream_first: multi && rng.chance(1, 4),
+          with_timeout: futures && rng.chance(1, 2), cancel_before_close: rng.chance(1, 5), second_close: rng.chance(1, 5) }
 }
 
 pub fn run(args: &Args, acc: &mut Acc) { run_loop(args, acc, single) }
@@ -198,11 +225,14 @@ fn single(args: &Args, acc: &mut Acc, seed: u64, verbose: bool) {
     if s.running != 0 { problems.push(("streams_still_running".into(), format!("after close() returned running_streams_count() is {}", s.running))) }
     if s.open { problems.push(("channel_still_open".into(), "after close() returned is_channel_open() is still true".into())) }
     if cfg.limit >= 2 { acc.count("runs_with_concurrency_limit>=2", 1) }
+    if cfg.with_timeout { acc.count("runs_with_a_futures_timeout_set", 1) }
+    if cfg.cancel_before_close { acc.count("runs_with_cancel_all_streams_right_before_the_close", 1) }
+    if cfg.second_close { acc.count("runs_with_a_second_concurrent_close", 1) }
     if !cfg.items.is_empty() { acc.nontrivial(cfg.items.iter().fold(mix(seed & 0xFF, cfg.limit as u64 * 11 + cfg.listeners as u64), |h, i| mix(h, match i { Item::Sync => 1, Item::Ready => 2, Item::Yields(y) => 10 + *y as u64, Item::Sleeps(s) => 20 + *s as u64, Item::Fails => 3 })) ^ (cfg.kind.len() as u64) << 50 ^ cfg.exec as u64) }
     acc.sample(3, || J::obj().with("config", cfg.json()).with("in_flight_when_close_returned", J::i(s.in_flight)).with("close_callbacks_run_when_close_returned", J::i(s.close_calls_at_return)));
     if !problems.is_empty() {
         let mut sigs: Vec<J> = Vec::new();
-        for (a, _) in &problems { let sg = J::obj().with("anomaly", J::s(a)).with("channel", J::s(cfg.kind)).with("executor", J::s(format!("{:?}", cfg.exec))).with("concurrency_limit_ge_2", J::Bool(cfg.limit >= 2)).with("a_listener_was_dropped_before", J::Bool(cfg.drop_one_stream_first)); if !sigs.iter().any(|x| x.to_string() == sg.to_string()) { sigs.push(sg) } }
+        for (a, _) in &problems { let sg = J::obj().with("anomaly", J::s(a)).with("channel", J::s(cfg.kind)).with("executor", J::s(format!("{:?}", cfg.exec))).with("concurrency_limit_ge_2", J::Bool(cfg.limit >= 2)).with("a_listener_was_dropped_before", J::Bool(cfg.drop_one_stream_first)).with("futures_timeout_set", J::Bool(cfg.with_timeout)).with("cancel_all_before_close", J::Bool(cfg.cancel_before_close)).with("second_close", J::Bool(cfg.second_close)); if !sigs.iter().any(|x| x.to_string() == sg.to_string()) { sigs.push(sg) } }
         let v = J::obj().with("what", J::s(problems.iter().map(|p| p.1.clone()).collect::<Vec<_>>().join("; "))).with("sigs", J::Arr(sigs)).with("config", cfg.json());
         file_violation(args, acc, seed, verbose, v);
     }
